@@ -45,3 +45,22 @@ func debugGen(r *Run) {
 	r.Sample("n/a")
 	fmt.Printf("programs=%d oracle_errors=%d syntax_errors=%d empty_traces=%d events=%d\n", n, bad, syn, empty, events)
 }
+
+func init() { registry["GENTAB"] = debugTab }
+
+// GENTAB: every exprtab case must be accepted by V8 on its own.
+func debugTab(r *Run) {
+	pool := r.Pool()
+	cases := exprtabMinify(func(int) bool { return true })
+	var bad int64
+	parallel(len(cases), pool.Size(), func(i int) {
+		pr, err := pool.Parse(packSource([]packCase{cases[i]}), "script", 0, "v8")
+		if err == nil && pr.V8 != nil && !pr.V8.OK {
+			if atomic.AddInt64(&bad, 1) < 40 {
+				fmt.Printf("BAD %s: %s\n", pr.V8.Err, cases[i].Body)
+			}
+		}
+	})
+	fmt.Printf("cases=%d bad=%d\n", len(cases), bad)
+	os.Exit(0)
+}
